@@ -223,7 +223,7 @@ def _fix_step(ds, data_dir, case, model, disk, k):
         require(after == want, "directory after fix=%d differs from the documented repairs" % k, _diff(after, want), None)
         return want_model, after, True
     with expect_raises(ValueError, what="fix=%d on a directory with %s" % (
-            k, sorted((d["code"], d["min_fix"]) for d in ds_defects if d["min_fix"] is None or d["min_fix"] > k))):
+            k, sorted("%s/%s" % (d["code"], d["min_fix"]) for d in ds_defects if d["min_fix"] is None or d["min_fix"] > k))):
         _validate(ds, k)
     after = dirs.read_dir(data_dir, case)
     # whatever was written before the error: each file is either untouched or its documented repair
@@ -319,11 +319,8 @@ def _fix_check(case):
 
 @st.composite
 def _history_case(draw, tier):
-    base = draw(dir_case(tier, p_clean=4, fix_choices=[1], allow_missing=False))
+    base = draw(dir_case(tier, p_clean=4, fix_choices=[1], allow_missing=False).filter(lambda c: c["utts"]))
     n = len(base["utts"])
-    if n == 0:
-        base["utts"] = draw(dir_case(tier, p_clean=4, fix_choices=[1], allow_missing=False).filter(lambda c: c["utts"]))["utts"]
-        n = len(base["utts"])
     donor = draw(dir_case(tier, p_clean=0, fix_choices=FIXES, allow_missing=False).filter(lambda c: c["utts"]))
     ops = []
     m = draw(st.integers(2, 7 if tier == "quick" else 12))
@@ -391,7 +388,7 @@ def _history_check(case):
                 if uid not in model["utts"]:
                     continue
                 part, spec = _transplant(case, i, part, src)
-                if part is None:
+                if part is None or model["utts"][uid].get(part) is None:
                     continue
                 import torch
 
@@ -491,7 +488,7 @@ def _info_check(case):
                 model = want_model
             else:
                 with expect_raises(ValueError, what="--fix %d on a directory with %s" % (
-                        k, sorted((d["code"], d["min_fix"]) for d in ds_defects))):
+                        k, sorted("%s/%s" % (d["code"], d["min_fix"]) for d in ds_defects))):
                     _run_info(root, data_dir, case, flags)
                 cl.append("cli_rejects")
         else:
@@ -510,7 +507,7 @@ def _info_check(case):
     utts = model["utts"].values()
     if model["has_ali"]:
         cl.append("has_ali")
-    if model["has_ref"]:
+    if model["has_ref"] and "cli_rejects" not in cl:
         two_d = any(len(p["ref"]["shape"]) == 2 for p in utts)
         cl.append("has_ref_2d" if two_d else "has_ref_1d")
         if two_d and any(r[1] >= 0 and r[2] >= 0 for p in utts if len(p["ref"]["shape"]) == 2 for r in p["ref"]["data"]):
